@@ -899,3 +899,50 @@ impl Axecutor {
         self.internal_mem_read_128(address)
     }
 }
+
+/// Raw view of one memory area for the external verification harness (`--cfg ax_verif` only).
+#[cfg(ax_verif)]
+#[derive(Debug, Clone, PartialEq, Eq)]
+pub struct VerifArea {
+    pub start: u64,
+    pub length: u64,
+    pub access: u32,
+    pub name: Option<String>,
+    pub data: Vec<u8>,
+}
+
+#[cfg(ax_verif)]
+impl Axecutor {
+    /// All areas in creation order, with their raw bytes regardless of permissions.
+    pub fn verif_areas(&self) -> Vec<VerifArea> {
+        self.state
+            .memory
+            .iter()
+            .map(|a| VerifArea {
+                start: a.start,
+                length: a.length,
+                access: a.access,
+                name: a.name.clone(),
+                data: a.data.clone(),
+            })
+            .collect()
+    }
+
+    /// (start, length, access, data length) of every area, without copying the contents.
+    pub fn verif_area_meta(&self) -> Vec<(u64, u64, u32, u64)> {
+        self.state
+            .memory
+            .iter()
+            .map(|a| (a.start, a.length, a.access, a.data.len() as u64))
+            .collect()
+    }
+
+    /// Raw bytes of the area starting at `start`, regardless of permissions.
+    pub fn verif_area_data(&self, start: u64) -> Option<&[u8]> {
+        self.state
+            .memory
+            .iter()
+            .find(|a| a.start == start)
+            .map(|a| a.data.as_slice())
+    }
+}
